@@ -96,6 +96,7 @@ pub fn emit<'tcx>(tcx: TyCtxt<'tcx>, root: &mut J) {
     );
 
     let vis = tcx.effective_visibilities(());
+    root.set("implied_features", J::obj());
 
     // ---------------- functions / closures / statics / consts with bodies
     let mut fns = Vec::new();
@@ -276,6 +277,41 @@ pub fn emit<'tcx>(tcx: TyCtxt<'tcx>, root: &mut J) {
         ex.push(o);
     }
     root.set("externs", J::Arr(ex));
+
+    // ---------------- implied target features (closure) for every feature name seen
+    {
+        let mut names: std::collections::BTreeSet<String> = std::collections::BTreeSet::new();
+        for ldid in tcx.hir_body_owners() {
+            let did = ldid.to_def_id();
+            if is_fn_like(tcx.def_kind(did)) {
+                for f in tcx.codegen_fn_attrs(did).target_features.iter() {
+                    names.insert(f.name.to_string());
+                }
+            }
+        }
+        for did in cx.externs.iter() {
+            if is_fn_like(tcx.def_kind(*did)) {
+                for f in tcx.codegen_fn_attrs(*did).target_features.iter() {
+                    names.insert(f.name.to_string());
+                }
+            }
+        }
+        for extra in ["avx2", "ssse3", "neon", "sse2", "avx", "sse4.1", "sse4.2", "avx512f"] {
+            names.insert(extra.to_string());
+        }
+        let mut imp = J::obj();
+        for n in names {
+            let v = tcx.implied_target_features(rustc_span::Symbol::intern(&n));
+            imp.set(n.clone(), J::Arr(v.iter().map(|s| J::s(s.as_str())).collect()));
+        }
+        if let J::Obj(o) = root {
+            for kv in o.iter_mut() {
+                if kv.0 == "implied_features" {
+                    kv.1 = imp.clone();
+                }
+            }
+        }
+    }
 
     // ---------------- layouts
     let mut lo = J::obj();
